@@ -874,7 +874,7 @@ impl Propagators {
             .collect();
 
         self.push_new_prop_with_metadata(
-            self::leq::LessThanOrEquals::new(y.next(), x), // x > y  =>  y.next() <= x
+            self::leq::LessThan::new(y, x), // x > y  =>  y < x
             ConstraintType::GreaterThan,
             variables,
             metadata,
@@ -1276,7 +1276,7 @@ impl Propagators {
         };
 
         self.push_new_prop_with_metadata(
-            self::leq::LessThanOrEquals::new(x.next(), y),
+            self::leq::LessThan::new(x, y),
             ConstraintType::LessThan,
             variables,
             metadata,
